@@ -50,3 +50,20 @@ func VerifC19FlushTimer(qb *QueueBatch) {
 
 // VerifC19QueueSize is the Size() of the queue behind the obs wrapper.
 func VerifC19QueueSize(qb *QueueBatch) int64 { return qb.queue.Size() }
+
+// VerifC19WithParked calls f with the request of the current (parked) batch, or nil, under the
+// batcher's mutex (the caller counts the items from the payload itself, not through ItemsCount()).
+func VerifC19WithParked(qb *QueueBatch, f func(req any)) {
+	db, ok := qb.batcher.(*defaultBatcher)
+	if !ok {
+		f(nil)
+		return
+	}
+	db.currentBatchMu.Lock()
+	defer db.currentBatchMu.Unlock()
+	if db.currentBatch == nil {
+		f(nil)
+		return
+	}
+	f(db.currentBatch.req)
+}
